@@ -122,7 +122,8 @@ SINGLE_READS = ([["named", k] for k in READ_KINDS] + [["reduce", f, sp] for f in
                 + [["fn", f] for f in ("cumsum", "sort", "unique", "unique-counts", "diff", "nonzero", "colcounts", "colmean", "getcol0", "astype-float",
                                        "astype-bool", "zeros_like", "where", "subset", "maskindex", "concat1", "neg", "add-scalar", "add-column", "compare",
                                        "equals-self", "rslice", "iter-rows", "row-last", "cell", "col0", "alias", "empty-tuple",
-                                       "mul-own-flat", "add-own-row", "sub-own-firsts", "add-one-element", "mul-row-vector")])
+                                       "mul-own-flat", "add-own-row", "sub-own-firsts", "add-one-element", "mul-row-vector",
+                                       "diff2", "cumsum-none", "unique-none", "getcol-last", "astype-int8", "padded")])
 
 
 def apply_single_read(x, read, n, operands=None):
@@ -156,6 +157,18 @@ def apply_single_read(x, read, n, operands=None):
         return [r.tolist() for r in np.unique(x, axis=-1, return_counts=True)]
     if f == "diff":
         return np.diff(x, axis=-1).tolist()
+    if f == "diff2":
+        return np.diff(x, n=2, axis=-1).tolist()
+    if f == "cumsum-none":
+        return np.cumsum(x)
+    if f == "unique-none":
+        return np.unique(x)
+    if f == "getcol-last":
+        return x.get_column_values(max(len(r) for r in x) - 1)
+    if f == "astype-int8":
+        return x.astype("int8").tolist()
+    if f == "padded":
+        return x.as_padded_matrix(side="left")
     if f == "nonzero":
         return np.nonzero(x)
     if f == "colcounts":
@@ -252,6 +265,17 @@ def body_single_read(case, ctx):
         operands = []
         lib(apply_single_read, x, read, n, operands)
         expect_unchanged(x, rows, a["dt"], "read-changed-content", read=read)
+        read2 = case.get("read2")
+        if read2 is not None:
+            # a second read of the same object answers what it answers on a twin that was never read before
+            from ..oracle import norm, same
+            ctx.label("second-read:" + ":".join(str(t) for t in read2[:2]))
+            twin = lazy_ra(rows, a["dt"], case["lz"])
+            second = lib(lambda: norm(apply_single_read(x, read2, n)))
+            ref = lib(lambda: norm(apply_single_read(twin, read2, n)))
+            if second.ok != ref.ok or (second.ok and not same(second.value, ref.value)):
+                raise Violation("second-read-depends-on-first", first=read, second=read2, after_first=second.brief(), on_unread_twin=ref.brief())
+            expect_unchanged(x, rows, a["dt"], "second-read-changed-content", read=read2)
         for arr, before in operands:
             if arr.shape != before.shape or arr.dtype != before.dtype or not arrays_equal(arr, before):
                 raise Violation("read-changed-operand", read=read, before=before.tolist(), after=arr.tolist())
@@ -273,7 +297,11 @@ def single_read_case(draw, tier):
         a = {"lens": lens, "dt": dt, "vals": draw(gen.flat_values(dt, sum(lens), specials=False))}
     else:
         a = draw(gen.ragged(tier, dts=[dt], min_rows=1, specials=False))
-    return {"a": a, "read": draw(st.sampled_from(SINGLE_READS)), "lz": draw(st.sampled_from(LAZY_CHOICES))}
+    read = draw(st.sampled_from(SINGLE_READS))
+    # the second read: often the same kind of operation with other arguments
+    fam = [r for r in SINGLE_READS if r[0] == read[0] and str(r[1])[:4] == str(read[1])[:4]]
+    read2 = draw(st.one_of(st.none(), st.sampled_from(SINGLE_READS), st.sampled_from(fam)))
+    return {"a": a, "read": read, "read2": read2, "lz": draw(st.sampled_from(LAZY_CHOICES))}
 
 
 SUBCHECKS = [
